@@ -104,7 +104,12 @@ func ZZ_C13_DirPath() {
 		badAt = []int{vf_Choose("broken.pos", len(infos)+1)}
 		nsevere++
 	}
-	dir := vf_RegisterDir("c13", infos, badAt)
+	// file placement: one of the documents may sit in a sub-directory
+	var nested []int
+	if k := vf_Choose("nested", len(infos)+1); k > 0 {
+		nested = []int{k - 1}
+	}
+	dir := vf_RegisterDir("c13", infos, badAt, nested)
 	stop := vf_Choose("stop", 2) == 1
 	opts := []ConnlistAnalyzerOption{WithMuteErrsAndWarns()}
 	if stop {
